@@ -122,7 +122,7 @@ func vxC04Explore(rep *mc.Report, cfg vxCfg) *vxC04Graph {
 			}
 		},
 	}
-	g.stats = mc.BFS2(rep, mc.BFSOpts{NSym: 512, MaxStates: 100000, Deadline: mc.Deadline(60*time.Second, 12*time.Minute)}, model)
+	g.stats = mc.BFS2(rep, mc.BFSOpts{NSym: 512, MaxStates: 100000, Deadline: vxC04Deadline}, model)
 	rep.States += int64(g.stats.States)
 	rep.Transitions += g.stats.Transitions
 	if !g.stats.Closed {
@@ -213,7 +213,10 @@ func vxC04Direct(rep *mc.Report, lo, hi, m int, mapName string) {
 	rep.AddDistinct(int64(256 * len(g.next)))
 }
 
+var vxC04Deadline time.Time
+
 func TestVX_C04(t *testing.T) {
+	vxC04Deadline = mc.Deadline(80*time.Second, 13*time.Minute)
 	rep := mc.NewReport("C04", "controller/settle-direct")
 	defer rep.Write()
 	defer vxCleanup()
